@@ -36,7 +36,7 @@ chk = Check('C12', 'exploration',
             'full product materials (8 anisotropic classes, cubic A=1+-{1e-1,1e-2,1e-3}, 2 isotropic) x Burgers '
             'vectors (screw, edge, 60-degree mixed, 2 generic with n-component; crystal-vector Burgers for the '
             'Miller systems) x orientations (no transform, 5 explicit transforms incl. non-unit rows and the axes= '
-            'alias, one VERIF_SEED-selected rotation, 9 Miller line/plane systems in a cubic and a hexagonal box '
+            'alias, one VERIF_SEED-selected rotation, 10 Miller line/plane systems in a cubic, a hexagonal and an orthorhombic box '
             'incl. 4-index) x 8 (m,n) choices (6 Cartesian assignments as str/array/mixed + 2 generic pairs); '
             'one case = one solved dislocation evaluated on the complete grid r{0.7,1.9,5.3} x 12 theta x z{0,0.8} '
             '(+ finite-difference stencils, 4 half-plane crossings x 6, a 360-point ring); non-trivial = solution '
@@ -203,6 +203,7 @@ SEED_ROT = [([3, 1, 2], 29.0), ([1, -2, 2], 77.0), ([-1, 1, 3], 143.0), ([2, 2, 
             ([0.3, 1, -0.2], 61.0), ([1, 0.1, 0.2], 97.0), ([-3, 2, 1], 171.0), ([1, 4, -2], 305.0)]
 HEXV = np.array([[3.0, 0, 0], [-1.5, 1.5 * np.sqrt(3.0), 0], [0, 0, 4.9]])
 CUBV = 3.2 * np.eye(3)
+ORTV = np.diag([3.0, 4.1, 5.3])
 # ('T', how, matrix)   how in none/transform/axes
 ORIENT = [('T', 'none', np.eye(3)),
           ('T', 'transform', np.array([[0.0, 1, 0], [0, 0, 1], [1, 0, 0]])),
@@ -223,6 +224,7 @@ ORIENT += [
     ('M', HEXV, [1, 0, 0], [0, 0, 1], [[1, 0, 0], [0, 1, 0]]),                  # hcp basal <a> screw / 60 degree
     ('M', HEXV, [2, -1, -1, 0], [0, 0, 0, 1], [[1. / 3, 1. / 3, -2. / 3, 0]]),  # 4-index input
     ('M', HEXV, [0, 1, 0], [1, 0, 1], [[0, 1, 0], [1, 0, -1]]),                 # pyramidal
+    ('M', ORTV, [1, 0, 0], [0, 1, 1], [[1, 0, 0], [0, 1, -1]]),                 # orthorhombic (011): [hkl] is not parallel to the (hkl) normal
 ]
 if THOROUGH:
     ORIENT += [('T', 'transform', rot(*sr)) for k, sr in enumerate(SEED_ROT) if k != SEED % 8]
@@ -570,7 +572,11 @@ def fields(case):
     fails = judge(sol, e)
     if iso:
         mu, nu = iso_mu_nu(e['C6'])
-        P = lab_points(e, GRID)
+        # the polar grid plus points EXACTLY above / below the line (m-coordinate exactly 0 for Cartesian m, n) and
+        # exactly on the +m half axis: special-cased branches of the angle computation
+        PX0 = np.array([y * e['n'] + z * e['xi'] for y in (0.7, -0.7, 1.9, -1.9) for z in (0.0, 0.8)]
+                       + [x * e['m'] + z * e['xi'] for x in (0.7, 1.9) for z in (0.0, 0.8)])
+        P = np.vstack([lab_points(e, GRID), PX0])
         uc, ec, sc = closed_form_lab(e, mu, nu, P)
         u, eps, sig = sol.displacement(P), sol.strain(P), sol.stress(P)
         bs = np.linalg.norm(e['b_lab'])
